@@ -104,6 +104,13 @@ class Decoder(Coder):
             # The exact bytes that have been decoded
             bufr_message.serialized_bytes = s[:nbits_decoded // NBITS_PER_BYTE]
 
+            # The sections must add up to the total length declared in section 0. Otherwise
+            # a damaged section length can make the message run into whatever follows it.
+            if not info_only and not ignore_value_expectation \
+                    and len(bufr_message.serialized_bytes) != bufr_message.length.value:
+                raise PyBufrKitError('Sections end at octet {} but the declared total length is {}'.format(
+                    len(bufr_message.serialized_bytes), bufr_message.length.value))
+
             if not info_only and wire_template_data:
                 bufr_message.wire()
 
